@@ -150,6 +150,21 @@ def toU32 (n : Nat) : Except Fail Nat := if n ≤ u32Max then .ok n else .error 
 /-- `size.as_u64().try_into::<usize>()` (64-bit targets: never fails). -/
 def toUsize (n : Nat) : Except Fail Nat := if n ≤ u64Max then .ok n else .error (.err .internal)
 
+/-- `if let Some(v) = opt { *field = Some(v) }`: the new value of the field. -/
+def named {α : Type} (opt stored : Option α) : Option α :=
+  match opt with
+  | some v => some v
+  | none => stored
+
+/-- `if let Some(size) = opt { *field = Some(size.as_u64().try_into().map_err(..)?) }`: new value of the field. -/
+def namedConv (conv : Nat → Except Fail Nat) (opt stored : Option Nat) : Except Fail (Option Nat) :=
+  match opt with
+  | none => .ok stored
+  | some s =>
+    match conv s with
+    | .ok v => .ok (some v)
+    | .error e => .error e
+
 def applyVersion (o : ConfigOptions) (c : ConfigFile) : Except Fail ConfigFile :=
   match o.setVersion with
   | some v =>
@@ -158,26 +173,24 @@ def applyVersion (o : ConfigOptions) (c : ConfigFile) : Except Fail ConfigFile :
     else .ok { c with version := v }
   | none => .ok c
 
-def applyChunker (o : ConfigOptions) (c : ConfigFile) : Except Fail ConfigFile := do
-  let c := match o.setChunker with
-    | some k => { c with chunker := some k }
-    | none => c
-  let c ← match o.setChunkSize with
-    | some s => (toUsize s).map (fun s => { c with chunkSize := some s })
-    | none => pure c
-  let c ← match o.setChunkMinSize with
-    | some s => (toUsize s).map (fun s => { c with chunkMinSize := some s })
-    | none => pure c
-  let c ← match o.setChunkMaxSize with
-    | some s => (toUsize s).map (fun s => { c with chunkMaxSize := some s })
-    | none => pure c
-  -- validate chunker parameters
+/-- "validate chunker parameters" (with `fix: … fixed-size chunker …`: zero size refused there too). -/
+def validateChunker (c : ConfigFile) : Except Fail ConfigFile :=
   match c.chunkerOrDefault with
-  | .rabin => do
-    checkRabinParams c.chunkSizeOrDefault c.chunkMinSizeOrDefault c.chunkMaxSizeOrDefault
-    pure c
-  | .fixedSize =>
-    if c.chunkSizeOrDefault = 0 then .error (.err .unsupported) else pure c
+  | .rabin =>
+    match checkRabinParams c.chunkSizeOrDefault c.chunkMinSizeOrDefault c.chunkMaxSizeOrDefault with
+    | .ok () => .ok c
+    | .error e => .error e
+  | .fixedSize => if c.chunkSizeOrDefault = 0 then .error (.err .unsupported) else .ok c
+
+def applyChunker (o : ConfigOptions) (c : ConfigFile) : Except Fail ConfigFile := do
+  let c := { c with chunker := named o.setChunker c.chunker }
+  let cs ← namedConv toUsize o.setChunkSize c.chunkSize
+  let c := { c with chunkSize := cs }
+  let cmin ← namedConv toUsize o.setChunkMinSize c.chunkMinSize
+  let c := { c with chunkMinSize := cmin }
+  let cmax ← namedConv toUsize o.setChunkMaxSize c.chunkMaxSize
+  let c := { c with chunkMaxSize := cmax }
+  validateChunker c
 
 def applyCompression (o : ConfigOptions) (c : ConfigFile) : Except Fail ConfigFile :=
   match o.setCompression with
@@ -188,41 +201,29 @@ def applyCompression (o : ConfigOptions) (c : ConfigFile) : Except Fail ConfigFi
   | none => .ok c
 
 def applyPackSizes (o : ConfigOptions) (c : ConfigFile) : Except Fail ConfigFile := do
-  let c := match o.setAppendOnly with
-    | some b => { c with appendOnly := some b }
-    | none => c
-  let c ← match o.setTreepackSize with
-    | some s => (toU32 s).map (fun s => { c with treepackSize := some s })
-    | none => pure c
-  let c := match o.setTreepackGrowfactor with
-    | some f => { c with treepackGrowfactor := some f }
-    | none => c
-  let c ← match o.setTreepackSizeLimit with
-    | some s => (toU32 s).map (fun s => { c with treepackSizeLimit := some s })
-    | none => pure c
-  let c ← match o.setDatapackSize with
-    | some s => (toU32 s).map (fun s => { c with datapackSize := some s })
-    | none => pure c
-  let c := match o.setDatapackGrowfactor with
-    | some f => { c with datapackGrowfactor := some f }
-    | none => c
-  match o.setDatapackSizeLimit with
-    | some s => (toU32 s).map (fun s => { c with datapackSizeLimit := some s })
-    | none => pure c
+  let c := { c with appendOnly := named o.setAppendOnly c.appendOnly }
+  let ts ← namedConv toU32 o.setTreepackSize c.treepackSize
+  let c := { c with treepackSize := ts, treepackGrowfactor := named o.setTreepackGrowfactor c.treepackGrowfactor }
+  let tl ← namedConv toU32 o.setTreepackSizeLimit c.treepackSizeLimit
+  let c := { c with treepackSizeLimit := tl }
+  let ds ← namedConv toU32 o.setDatapackSize c.datapackSize
+  let c := { c with datapackSize := ds, datapackGrowfactor := named o.setDatapackGrowfactor c.datapackGrowfactor }
+  let dl ← namedConv toU32 o.setDatapackSizeLimit c.datapackSizeLimit
+  pure { c with datapackSizeLimit := dl }
 
-def applyPercents (o : ConfigOptions) (c : ConfigFile) : Except Fail ConfigFile := do
-  let c ← match o.setMinPackPct with
-    | some p => if p > 100 then .error (.err .invalidInput) else pure { c with minPackPct := some p }
-    | none => pure c
+def applyMinPct (o : ConfigOptions) (c : ConfigFile) : Except Fail ConfigFile :=
+  match o.setMinPackPct with
+  | some p => if p > 100 then .error (.err .invalidInput) else .ok { c with minPackPct := some p }
+  | none => .ok c
+
+def applyMaxPct (o : ConfigOptions) (c : ConfigFile) : Except Fail ConfigFile :=
   match o.setMaxPackPct with
-    | some p => if p < 100 ∧ p > 0 then .error (.err .invalidInput) else pure { c with maxPackPct := some p }
-    | none => pure c
+  | some p => if p < 100 ∧ p > 0 then .error (.err .invalidInput) else .ok { c with maxPackPct := some p }
+  | none => .ok c
 
 /-- after `fix: … extra_verify`: `if let Some(v) = self.set_extra_verify { config.extra_verify = Some(v) }` -/
 def applyExtraVerify (o : ConfigOptions) (c : ConfigFile) : ConfigFile :=
-  match o.setExtraVerify with
-  | some b => { c with extraVerify := some b }
-  | none => c
+  { c with extraVerify := named o.setExtraVerify c.extraVerify }
 
 /-- the code before the repair: `config.extra_verify = self.set_extra_verify;` -/
 def applyExtraVerifyOld (o : ConfigOptions) (c : ConfigFile) : ConfigFile :=
@@ -234,7 +235,8 @@ def apply (o : ConfigOptions) (c : ConfigFile) : Except Fail ConfigFile := do
   let c ← applyChunker o c
   let c ← applyCompression o c
   let c ← applyPackSizes o c
-  let c ← applyPercents o c
+  let c ← applyMinPct o c
+  let c ← applyMaxPct o c
   pure (applyExtraVerify o c)
 
 /-- Stored repository configuration + number of config-file writes issued. -/
@@ -274,17 +276,28 @@ def PackSizer.fromConfig (c : ConfigFile) (tree : Bool) (currentSize : Nat) : Pa
 
 def packMaxSize : Nat := PACK_MAX_SIZE_MB * CFG_MB
 
+/-- Newton iteration of `integer_sqrt` (floor square root), started at `n`; strictly decreasing until the
+fixed point, at most ~70 steps for a u64. -/
+def isqrtGo (n : Nat) : Nat → Nat → Nat
+  | 0, x => x
+  | fuel + 1, x =>
+    let y := (x + n / x) / 2
+    if y < x then isqrtGo n fuel y else x
+
+/-- `u64::integer_sqrt` (exact for every u64; validated against the real function by the `packsize` channel). -/
+def isqrt (n : Nat) : Nat := if n ≤ 1 then n else isqrtGo n 200 n
+
 /-- `pack_size` after `fix: PackSizer::pack_size …`: saturating u32 arithmetic. -/
 def PackSizer.packSize (p : PackSizer) : Nat :=
   let size := if p.growFactor = 0 then p.defaultSize
-    else min u32Max (min u32Max (Nat.sqrt p.currentSize * p.growFactor) + p.defaultSize)
+    else min u32Max (min u32Max (isqrt p.currentSize * p.growFactor) + p.defaultSize)
   min (min size p.sizeLimit) packMaxSize
 
 /-- the code before the repair: checked u32 `*` and `+` (debug-overflow panics). -/
 def PackSizer.packSizeOld (p : PackSizer) : Except Fail Nat :=
   if p.growFactor = 0 then .ok (min (min p.defaultSize p.sizeLimit) packMaxSize)
   else
-    let m := Nat.sqrt p.currentSize * p.growFactor
+    let m := isqrt p.currentSize * p.growFactor
     if m > u32Max then .error (.panic "attempt to multiply with overflow")
     else if m + p.defaultSize > u32Max then .error (.panic "attempt to add with overflow")
     else .ok (min (min (m + p.defaultSize) p.sizeLimit) packMaxSize)
